@@ -139,6 +139,25 @@ def describe_inst(o):
     return name, o.value
 
 
+FRAME_FORMS = ["ForwardFrame", "plain Frame", "Frame + Frame", "ForwardFrame from bytes"]
+
+
+def _build_frame(frame, bits, v, form):
+    """The ways the library offers to hold `bits` bits of value `v`: a ForwardFrame (what drivers and commands build),
+    the documented base class Frame, the concatenation of two frames (a plain Frame), a ForwardFrame given its bytes.
+    Returns (frame, name of the form actually used)."""
+    if form == 2 and bits < 2:
+        form = 1
+    if form == 1:
+        return frame.Frame(bits, v), FRAME_FORMS[1]
+    if form == 2:
+        lo = bits // 2
+        return frame.Frame(bits - lo, v >> lo) + frame.Frame(lo, v & ((1 << lo) - 1)), FRAME_FORMS[2]
+    if form == 3:
+        return frame.ForwardFrame(bits, list(v.to_bytes((bits + 7) // 8, "big"))), FRAME_FORMS[3]
+    return frame.ForwardFrame(bits, v), FRAME_FORMS[0]
+
+
 # --------------------------------------------------------------- cases ----
 def _used_before(f, v):
     """What a program may have done with a frame object before an address is written into it: none of these
@@ -281,8 +300,9 @@ def case_write(case):
     else:
         kind, num, field, o = instance_objects(address)[idx]
         bits, mask, shift = 24, 0xFF << 8, 8
-    f = frame.ForwardFrame(bits, v)
-    where = "%s(%r) into %d-bit %#x" % (kind, num, bits, v)
+    # address and instance objects are written into "a frame": every form the library offers, not only ForwardFrame
+    f, fname = _build_frame(frame, bits, v, case.get("form", (v * 7 + (v >> 9) + idx) % 4))
+    where = "%s(%r) into %d-bit %#x (%s)" % (kind, num, bits, v, fname)
     # read the frame BEFORE writing too: reading must be a function of the frame's current bits, not of what the
     # same frame object held when it was last looked at
     try:
@@ -406,8 +426,8 @@ def case_wrongsize(case):
     space, idx, bits, v = case["space"], case["idx"], case["bits"], case["v"]
     objs = {"gear": gear_objects, "device": device_objects, "instance": instance_objects}[space](address)
     kind, num, field, o = objs[idx]
-    f = frame.ForwardFrame(bits, v)
-    where = "%s(%r) into %d-bit frame %#x" % (kind, num, bits, v)
+    f, fname = _build_frame(frame, bits, v, case.get("form", (bits + idx + (v & 3)) % 4))
+    where = "%s(%r) into %d-bit frame %#x (%s)" % (kind, num, bits, v, fname)
     out = []
     _used_before(f, v ^ idx)
     try:
